@@ -585,7 +585,10 @@ static void create_note (int n) {
 	if (W.note[n] == NULL) VIOL ("C19", "ctor-null", "nsync_note_new returned NULL although no allocation failed");
 	last_alloc_failed = 0;
 	/* an ancestor's notification may have started while the constructor ran */
-	for (a = p; a >= 0; a = NM[a].parent) if (NM[a].notify_invoked >= 0 || NM[a].inh_invoked >= 0) NM[n].late_child = 1;
+	for (a = p; a >= 0; a = NM[a].parent) {
+		if (NM[a].notify_invoked >= 0 || NM[a].inh_invoked >= 0) NM[n].late_child = 1;
+		if ((NM[a].dl_ns >= 0 && NM[a].dl_ns <= nsim_now_ns ()) || (NM[a].inh_dl >= 0 && NM[a].inh_dl <= nsim_now_ns ())) NM[n].late_child = 1;
+	}
 	/* a child created after an ancestor was (or may have been) notified is not linked and, by
 	   note.c, has expiry "zero" semantics: treat as notified-at-creation in the model */
 	for (a = p; a >= 0; a = NM[a].parent) {
